@@ -5,7 +5,7 @@ import asyncio
 
 def make_site(loop, hlog, extra=None):
     """Site with:
-    /r   configurable by request payload  b"d=<delay>;c=<code int>;p=<payload text>;nr=<no_response int>;x=raise|crash|unser;tt=cls|inst"
+    /r   configurable by request payload  b"d=<delay>;c=<code int>;p=<payload text>;nr=<no_response int>;x=raise|crash|unser|cached;tt=cls|inst"
     hlog: list receiving dicts {ev, t, remote, mid, token, code, path, payload}
     """
     import aiocoap
@@ -15,6 +15,7 @@ def make_site(loop, hlog, extra=None):
         def __init__(self, name):
             super().__init__()
             self.name = name
+            self.cached = {}
 
         async def _handle(self, request):
             cfg = {}
@@ -48,6 +49,15 @@ def make_site(loop, hlog, extra=None):
                     # a Message that cannot be put on the wire (text where bytes belong)
                     hlog.append(dict(entry, ev="exit", t=loop.time()))
                     return aiocoap.Message(code=aiocoap.CONTENT, payload="text, not bytes")
+                if cfg.get("x") == "cached":
+                    # a resource that keeps its (static) response and returns the same Message object every time
+                    key = (cfg.get("c"), cfg.get("p", "ok"))
+                    if key not in self.cached:
+                        self.cached[key] = aiocoap.Message(payload=cfg.get("p", "ok").encode())
+                        if "c" in cfg:
+                            self.cached[key].code = aiocoap.numbers.codes.Code(int(cfg["c"]))
+                    hlog.append(dict(entry, ev="exit", t=loop.time()))
+                    return self.cached[key]
                 if cfg.get("x") == "crash":
                     hlog.append(dict(entry, ev="exit", t=loop.time()))
                     raise RuntimeError("handler crashed")
